@@ -75,7 +75,11 @@ func refRuleValue(sb *strings.Builder, name string, r *model.Rule, depth int) {
 		refRule(sb, name, "array", "", srcManual, depth)
 		for i, lit := range r.List {
 			t, v := refTokenOfLit(lit)
-			refRule(sb, fmt.Sprintf("[%d]", i), t, v, srcManual, depth+1)
+			note := ""
+			if r.NotesWritten {
+				note = strings.TrimSpace(r.ItemNotes[i])
+			}
+			fmt.Fprintf(sb, "%srule %s token=%s value=%q source=%d comment=%q\n", strings.Repeat(" ", depth+1), fmt.Sprintf("[%d]", i), t, v, srcManual, note)
 		}
 	case "allOf":
 		if len(r.List) == 1 {
@@ -169,7 +173,7 @@ type c16Case struct {
 
 func c16Sizes(tier string) (units, per int) {
 	if tier == "thorough" {
-		return 3000, 60
+		return 40000, 60
 	}
 	return 400, 48
 }
@@ -215,6 +219,23 @@ func c16Run(c *mon.Ctx, unit int) {
 				}
 			})
 		}
+		// surface forms the AST must mirror: notes of enum values (written when the annotation is
+		// spread over several lines), an empty note after the separator, a type named twice in a
+		// shortcut union
+		s.Root.Walk(func(n *model.Node) {
+			if e := n.Rule("enum"); e != nil && len(e.List) > 0 && r.Bool() {
+				e.ItemNotes = make([]string, len(e.List))
+				for i := range e.ItemNotes {
+					e.ItemNotes[i] = mon.Pick(r, []string{"", "C# (.NET)", "F# is functional", "Go", "the first", "50% - of all", "see @x #1", "a, b", "x: [1]", "{y}"})
+				}
+			}
+			if len(n.Rules) > 0 && n.Note == "" && r.Chance(1, 8) {
+				n.Dash = true
+			}
+			if n.Kind == model.KRef && n.Rule("or") == nil && r.Chance(1, 6) {
+				n.Refs = append(n.Refs, n.Refs[r.Intn(len(n.Refs))])
+			}
+		})
 		// all styles that do not change meaning (rule order is kept: the AST lists rules as written)
 		st := model.Style{}
 		if k%2 == 1 {
